@@ -4,15 +4,19 @@
                   the state the implementation is in (tokens, flags, the affected slot) after every call;
      hyp_case   : every hypothesis of the C14 theorems holds where the theorem is used: Inv on the initial state,
                   op_ok before every call, auto_ok before every call of a repeated auto_claim_comments once all
-                  comments are claimed, the adjacency shape before every unclaim+claim of a surrounding comment. *)
-From AB Require Import Prelude Comments.
+                  comments are claimed, the adjacency shape before every unclaim+claim of a surrounding comment,
+                  claimable_b (the un-claimed comments lie in the field's range) before the claim that follows an
+                  unclaim_interleaving_comments, file_cover_b before the root File's own claim_interleaving_comments()
+                  (what the children left unclaimed lies in the File's range). *)
+From AB Require Import Prelude Comments CommentsRange.
 
 (* o_order: token ids in store order after the call (None: same order as before it); o_claimed: ids of the
    tokens whose claimed flag is set, in store order *)
 Record obs := mkobs { o_exc : Z; o_ret : list Z; o_items : list (bool * Z); o_order : option (list Z);
                       o_claimed : list Z; o_slot : list Z }.
 (* k_mode: 0 plain, 1 = part of the second run of auto_claim_comments, 2 = unclaim_leading/trailing that is
-   followed by its claim, 3 = unclaim_interleaving_comments(cs) followed by claim_interleaving_comments(cs) *)
+   followed by its claim, 3 = unclaim_interleaving_comments(cs) followed by claim_interleaving_comments(cs),
+   4 = the root File's own claim_interleaving_comments() at the end of File.auto_claim_comments() *)
 Record step := mkstep { k_op : eop; k_obs : obs; k_mode : Z }.
 Record ccase := mkccase { c_doc : doc; c_table : table; c_hists : list (list step) }.
 
@@ -74,18 +78,27 @@ Definition restore_hyp (st : doc * table) (o : eop) (next : list step) : bool :=
   | _, _ => false
   end.
 
-(* hypotheses of inter_unclaim_claim at an unclaim_interleaving_comments(cs) that is followed by
-   claim_interleaving_comments(cs): the entries name block comments, the claimer gets the kept items and cs *)
+(* hypotheses of inter_unclaim_claim_full at an unclaim_interleaving_comments(cs) that is followed by
+   claim_interleaving_comments(cs): the entries name block comments, the claimer gets the kept items and cs, the
+   placeholder is in the store and every comment of cs lies in the field's range (position hypothesis) *)
 Definition restore_inter_hyp (st : doc * table) (o : eop) (next : list step) : bool :=
   match o, next with
   | EC (OUnclaimInter r items flt), k :: _ =>
     match k_op k, unclaim_inter (fst st) items flt with
-    | EC (OClaimInter r' _ items2 _ _ (Some cs)), (Ok (un, kept), _) =>
+    | EC (OClaimInter r' ph items2 mf ml (Some cs)), (Ok (un, kept), d1) =>
       (r =? r') && refs_ok_b (fst st) items && list_eqb bz_eqb (map oitem_of items2) kept
       && list_eqb Z.eqb cs un
+      && has_tok_b d1 ph && claimable_b d1 ph items2 mf ml un
     | _, _ => false
     end
   | _, _ => false
+  end.
+
+(* hypothesis of file_claim_all_claimed / idempotent_file at the root File's own claim (no explicit list) *)
+Definition file_hyp (st : doc * table) (o : eop) : bool :=
+  match o with
+  | EC (OClaimInter _ ph items mf ml None) => file_cover_b (fst st) ph items mf ml
+  | _ => false
   end.
 
 Fixpoint hyp_steps (st : doc * table) (l : list step) : bool :=
@@ -96,6 +109,7 @@ Fixpoint hyp_steps (st : doc * table) (l : list step) : bool :=
     && (if k_mode k =? 1 then match k_op k with EC o => auto_ok st o | _ => false end else true)
     && (if k_mode k =? 2 then restore_hyp st (k_op k) r else true)
     && (if k_mode k =? 3 then restore_inter_hyp st (k_op k) r else true)
+    && (if k_mode k =? 4 then file_hyp st (k_op k) else true)
     && hyp_steps (snd (estep_obs st (k_op k))) r
   end.
 
